@@ -356,6 +356,25 @@ def r6(ctx):
         raise AnalysisError("working-state stores not recognised")
     new_state = cl[0].base
     s = lab[0]
+    if s.loops:
+        lp_ = s.loops[0]
+        def own_exits(body):
+            for st in body:
+                if isinstance(st, (ast.Break, ast.Return)):
+                    yield st
+                elif isinstance(st, (ast.For, ast.While)):
+                    yield from (x for x in ast.walk(st) if isinstance(x, ast.Return))
+                elif isinstance(st, (ast.FunctionDef, ast.ClassDef)):
+                    continue
+                else:
+                    for fld in ("body", "orelse", "finalbody"):
+                        yield from own_exits(getattr(st, fld, []) or [])
+                    for h in getattr(st, "handlers", []) or []:
+                        yield from own_exits(h.body)
+        exits = list(own_exits(lp_.body))
+        ctx.check(not exits, fi, "the refill loop serves every under-populated cluster: nothing leaves it early (the donor search raises when the pool is exhausted)",
+                  line=lp_.lineno, role="commit:no-early-exit", expected="no break / return out of the refill loop",
+                  found="; ".join(f"{type(x).__name__.lower()} at line {x.lineno}" for x in exits))
     ctx.check(len(s.loops) == 1 and s.base == new_state, fi, "the new labelling is assigned to the working state inside the refill loop "
               "(the setter re-derives membership and sizes, C13.R2)", line=s.stmt.lineno, role="commit:in-loop",
               expected=f"{new_state}.point_labels = ... inside the loop", found=f"{s.base}.point_labels in {len(s.loops)} loop(s)")
